@@ -39,10 +39,11 @@ try:
                    VERIF_REPLAY_DIR=os.path.join(scratch, "rp"), VERIF_SHRINK_S="15")
         t = time.time()
         q = subprocess.run([f"{V}/check", c["property"], "--tier", "quick"], env=env, capture_output=True, text=True, timeout=1200)
+        rc_eff = q.returncode if not (q.returncode == 1 and "VIOLATION property=" not in q.stdout) else 2
         mo = re.search(r"oracle=(\S+)", q.stdout)
-        r.update({"rc": q.returncode, "wall": round(time.time() - t, 1), "oracle": mo.group(1) if mo else None})
+        r.update({"rc": rc_eff, "wall": round(time.time() - t, 1), "oracle": mo.group(1) if mo else None})
         exp = r["expect"]
-        r["ok"] = (q.returncode == 1) if exp == "alarm" else (q.returncode == 0) if exp == "no-alarm" else q.returncode in (0, 1)
+        r["ok"] = (rc_eff == 1) if exp == "alarm" else (rc_eff == 0) if exp == "no-alarm" else rc_eff in (0, 1)
         res[c["id"]] = r
         print(c["id"], {k: r[k] for k in ("rc", "wall", "oracle", "ok", "passes_existing_tests") if k in r}, flush=True)
         json.dump(res, open(out_path, "w"), indent=1, sort_keys=True)
